@@ -178,6 +178,10 @@ Proof. exact refuted_reason. Qed.
 Theorem C18_refuted_lookup : forall v, result_null v = false -> ~ C18_full v.
 Proof. exact refuted_lookup. Qed.
 
+(* in particular the code as it is at the pinned commit (every switch off) does not have the property *)
+Theorem C18_refuted_as_is : ~ C18_full as_is.
+Proof. exact (refuted_shrink as_is eq_refl). Qed.
+
 (* trie_get_children (internal helper; only the test suite calls it): the code as it is releases the array once
    per active recursion level; the repaired code once *)
 Theorem C18_refuted_children : forall v, children_once v = false ->
@@ -243,6 +247,7 @@ Print Assumptions C18_refuted_init.
 Print Assumptions C18_refuted_free.
 Print Assumptions C18_refuted_reason.
 Print Assumptions C18_refuted_lookup.
+Print Assumptions C18_refuted_as_is.
 Print Assumptions C18_refuted_children.
 Print Assumptions C18_as_is_part.
 Print Assumptions C18_code_constants.
